@@ -190,7 +190,7 @@ def describe_diff(a, b):
     return "equal"
 
 
-MODES = ["separate", "separate", "inplace", "fileobj", "over-longer", "copy", "write-twice", "after-failed-write", "over-twin"]
+MODES = ["separate", "separate", "inplace", "fileobj", "over-longer", "copy", "write-twice", "after-failed-write", "over-twin", "fileobj-enc"]
 
 
 def roundtrip(text_path, is_molecule, label, mode="separate"):
@@ -201,6 +201,19 @@ def roundtrip(text_path, is_molecule, label, mode="separate"):
     out2 = env.fresh_path(".itp")
     if mode == "fileobj":                       # "fitp : str or TextIOWrapper"
         itp = lib("read", ItpFile, open(text_path, encoding="utf-8"))
+    elif mode == "fileobj-enc":
+        # ... an opened file in the encoding the user's file happens to have (latin-1, cp1252, UTF-8 with a byte order
+        # mark, UTF-16): the library sees the same text; what it writes is read back by name like any other output
+        for enc in (["latin-1", "utf-8-sig", "utf-16"] if len(original) % 2 else ["cp1252", "utf-16", "utf-8-sig"]):
+            try:
+                raw = original.encode(enc)
+                break
+            except UnicodeEncodeError:
+                continue
+        other = env.fresh_path(".itp")
+        with open(other, "wb") as f:
+            f.write(raw)
+        itp = lib("read", ItpFile, open(other, encoding=enc, newline=""))
     else:
         itp = lib("read", ItpFile, text_path)
     if mode == "inplace":                       # written back over the file it was read from
@@ -246,8 +259,12 @@ def roundtrip(text_path, is_molecule, label, mode="separate"):
     if stamp is not None:
         os.utime(out1, ns=(stamp.st_atime_ns, stamp.st_mtime_ns))
     del itp
-    with open(out1, encoding="utf-8") as f:
-        written = f.read()
+    try:
+        with open(out1, encoding="utf-8") as f:
+            written = f.read()
+    except UnicodeDecodeError as exc:
+        raise PropertyViolation("roundtrip", "%s: the written file is not UTF-8 text (what the library reads by name): %s"
+                                % (label, exc), cls="roundtrip:encoding")
     s1 = structure(written)
     if s0 != s1:
         d = describe_diff(s0, s1)
